@@ -478,7 +478,8 @@ def main(rep, tier, only):
                                             {"why": "written(%s): the number of elements the callback reports as written must be passed on unchanged (it counts from the start of the write area)" % at}))
     for fn in db.fns("fcppt::container::buffer::to_raw_vector"):
         u = fn["_unit"]
-        t = " ".join(T.show(T.norm(u, r["e"])) for r in F.walk(fn.get("body")) if r.get("k") == "return")
+        # named intermediates (`rep const released{_buffer.release()}; return object{released};`) stand for their initialisers
+        t = " ".join(T.show(T.snorm(u, fn, r["e"])) for r in F.walk(fn.get("body")) if r.get("k") == "return")
         ok = (fn["params"][0]["name"] + ".release()") in t
         (rep.ok if ok else rep.fail)("BUF", "to_raw_vector", F.primary_site(fn), F.describe(fn)[:160], **({"how": "object{release()}"} if ok else {"why": "to_raw_vector does not build the vector from release(): %s" % t}))
         break
